@@ -12,3 +12,293 @@ Print Assumptions C10_kernels.
 Theorem C10_root_envelope_wins : k_cache_root_overwrites = true.
 Proof. exact root_overwrites. Qed.
 Print Assumptions C10_root_envelope_wins.
+
+(* ------------------------------------------------------------------------------------------------
+   The state-machine theorems.  Everything is stated for an arbitrary key type K, root-key-data type RK,
+   KDF `kdf rkid l0 key a b`, L1 seed function, empty key `nokey`, domain controller oracle `dc` and
+   ground truth `truth : Z -> RK` (the real root key data of each root key id).
+     top rk sd l0            = l1seed (truth rk) rk sd l0
+     key_at rk sd l0 l1 l2   = K2 (kdf rk l0) (top rk sd l0) l1 l2      (GkdiSpec: the MS-GKDI chain key)
+     conf sd e               = c_pub e = false /\ e is `conforming` for (c_rk e, sd, c_l0 e)   (positions in 0..31)
+     Inv c                   = every loaded root key derives the true L1 seeds, and every cached (rk, sd, l0) |-> e
+                               has c_rk e = rk, c_l0 e = l0, conf sd e
+   Assumptions on the DC (premises): dc_explicit_ok (a request naming a root key and an explicit position is
+   answered for that position) and dc_conforming_ok (every private reply is a conforming envelope of the true
+   root key AND carries its L2 key also at L2 = 31: the "DC always sends the L2 key" assumption; replies
+   without it are the candidate defect D13 handled under C17, see C10_l2_key_assumption_needed).
+   Histories are lists of events {Start call | Finish i-th pending RPC}: all interleavings at await granularity. *)
+Notation KDF K := (Z -> Z -> K -> Z -> Z -> K) (only parsing).
+Notation SEED K RK := (RK -> Z -> Z -> Z -> K) (only parsing).
+Notation DC K := (Z -> option Z -> Z -> Z -> Z -> cenv (K := K)) (only parsing).
+
+(* ---- 1. the invariant ---- *)
+Theorem C10_inv_init : forall (K RK : Type) (kdf : KDF K) (l1seed : SEED K RK) (truth : Z -> RK),
+  Inv kdf l1seed truth empty_cache.
+Proof. exact (@Inv_empty). Qed.
+Print Assumptions C10_inv_init.
+
+Theorem C10_inv_load : forall (K RK : Type) (kdf : KDF K) (l1seed : SEED K RK) (truth : Z -> RK) (c : cache) (rk : Z) (d : RK),
+  Inv kdf l1seed truth c -> agrees l1seed truth rk d -> Inv kdf l1seed truth (load_key c rk d).
+Proof. exact (@Inv_load). Qed.
+Print Assumptions C10_inv_load.
+
+Theorem C10_inv_get_key : forall (K RK : Type) (kdf : KDF K) (l1seed : SEED K RK) (nokey : K) (truth : Z -> RK) (c : cache) (sd rk l0 l1 l2 : Z),
+  Inv kdf l1seed truth c -> Inv kdf l1seed truth (snd (get_key l1seed nokey c sd rk l0 l1 l2)).
+Proof. exact (@Inv_get_key). Qed.
+Print Assumptions C10_inv_get_key.
+
+(* what _get_key hands back is the entry now cached for the triple, is conforming for it and covers the request *)
+Theorem C10_get_sound : forall (K RK : Type) (kdf : KDF K) (l1seed : SEED K RK) (nokey : K) (truth : Z -> RK)
+    (c : cache) (sd rk l0 l1 l2 : Z) (e : cenv) (c1 : cache),
+  Inv kdf l1seed truth c -> get_key l1seed nokey c sd rk l0 l1 l2 = (Some e, c1) ->
+  Inv kdf l1seed truth c1 /\ find_seed (seeds c1) (rk, sd, l0) = Some e /\ c_rk e = rk /\ c_l0 e = l0 /\
+  conf kdf l1seed truth sd e /\ (l1 <= 31 -> l2 <= 31 -> covers_at e l1 l2).
+Proof. exact (@get_key_sound). Qed.
+Print Assumptions C10_get_sound.
+
+Theorem C10_inv_store_key : forall (K RK : Type) (kdf : KDF K) (l1seed : SEED K RK) (truth : Z -> RK) (c : cache) (sd : Z) (e : cenv),
+  Inv kdf l1seed truth c -> conf kdf l1seed truth sd e -> Inv kdf l1seed truth (store_key c sd e).
+Proof. exact (@Inv_store_key). Qed.
+Print Assumptions C10_inv_store_key.
+
+Theorem C10_inv_unprotect_finish : forall (K RK : Type) (kdf : KDF K) (l1seed : SEED K RK) (truth : Z -> RK)
+    (c : cache) (sd l0 l1 l2 : Z) (e : cenv) (n : Z),
+  Inv kdf l1seed truth c -> (c_pub e = false -> conf kdf l1seed truth sd e) ->
+  Inv kdf l1seed truth (snd (unprotect_finish kdf c sd l0 l1 l2 e n)).
+Proof. exact (@Inv_unprotect_finish). Qed.
+Print Assumptions C10_inv_unprotect_finish.
+
+Theorem C10_inv_protect_finish : forall (K RK : Type) (kdf : KDF K) (l1seed : SEED K RK) (truth : Z -> RK)
+    (c : cache) (sd : Z) (e : cenv) (n : Z),
+  Inv kdf l1seed truth c -> (c_pub e = false -> conf kdf l1seed truth sd e) ->
+  Inv kdf l1seed truth (snd (protect_finish c sd e n)).
+Proof. exact (@Inv_protect_finish). Qed.
+Print Assumptions C10_inv_protect_finish.
+
+(* the envelope _get_protection_gke_from_cache builds (no L1 key) is not conforming in general
+   (C10_protection_envelope_not_conforming) but _store_key never stores it: the entry _get_key has just
+   returned / written for the triple is at or after the requested position *)
+Theorem C10_protection_envelope_not_stored : forall (K RK : Type) (kdf : KDF K) (l1seed : SEED K RK) (nokey : K) (truth : Z -> RK)
+    (c : cache) (sd rk l0 l1 l2 : Z) (e : cenv) (c1 : cache) (k : K),
+  Inv kdf l1seed truth c -> get_key l1seed nokey c sd rk l0 l1 l2 = (Some e, c1) -> derive kdf e l1 l2 = Ok k ->
+  store_key c1 sd (prot_env nokey rk l0 l1 l2 (c_pub e) k) = c1.
+Proof. exact (@prot_env_not_stored). Qed.
+Print Assumptions C10_protection_envelope_not_stored.
+
+Theorem C10_protection_envelope_not_conforming : forall (K RK : Type) (kdf : KDF K) (l1seed : SEED K RK) (nokey : K) (truth : Z -> RK)
+    (sd rk l0 l1 l2 : Z) (k : K),
+  0 < l1 -> l2 <> 31 -> nokey <> K1 (kdf rk l0) (top l1seed truth rk sd l0) (l1 - 1) ->
+  ~ conf kdf l1seed truth sd (prot_env nokey rk l0 l1 l2 false k).
+Proof. exact (@prot_env_not_conf). Qed.
+Print Assumptions C10_protection_envelope_not_conforming.
+
+(* EVERY event preserves the invariant (WInv w = Inv (w_cache w) /\ every envelope in flight is an admissible DC reply);
+   only loads are constrained (ev_true: a loaded root key derives the true L1 seeds) *)
+Theorem C10_inv_step : forall (K RK : Type) (kdf : KDF K) (l1seed : SEED K RK) (nokey : K) (dc : DC K) (truth : Z -> RK),
+  dc_conforming_ok kdf l1seed dc truth ->
+  forall (w : world) (ev : event), WInv kdf l1seed truth w -> ev_true l1seed truth ev -> WInv kdf l1seed truth (step kdf l1seed nokey dc w ev).
+Proof. exact (@step_WInv). Qed.
+Print Assumptions C10_inv_step.
+
+Theorem C10_inv_reachable : forall (K RK : Type) (kdf : KDF K) (l1seed : SEED K RK) (nokey : K) (dc : DC K) (truth : Z -> RK),
+  dc_conforming_ok kdf l1seed dc truth ->
+  forall evs : list event, Forall (ev_true l1seed truth) evs -> Inv kdf l1seed truth (w_cache (run_events kdf l1seed nokey dc evs)).
+Proof. exact (@Inv_reachable). Qed.
+Print Assumptions C10_inv_reachable.
+
+(* ... hence every continuation of every invariant-respecting world, in particular every interleaving from the empty cache *)
+Theorem C10_inv_fold : forall (K RK : Type) (kdf : KDF K) (l1seed : SEED K RK) (nokey : K) (dc : DC K) (truth : Z -> RK),
+  dc_conforming_ok kdf l1seed dc truth ->
+  forall (evs : list event) (w : world), WInv kdf l1seed truth w -> Forall (ev_true l1seed truth) evs ->
+  WInv kdf l1seed truth (fold_left (step kdf l1seed nokey dc) evs w).
+Proof. exact (@fold_WInv). Qed.
+Print Assumptions C10_inv_fold.
+
+(* ---- 2. transparency and termination ----
+   good_outcome o: when o_pub o = false, o_key o = Ok (key_at rk sd l0 l1 l2) for the position (l0, l1, l2) = o_pos o
+   (in 0..31) of some (rk, sd): never an error, never OutOfFuel.  The per-step theorems name rk and sd. *)
+Theorem C10_step_outcomes : forall (K RK : Type) (kdf : KDF K) (l1seed : SEED K RK) (nokey : K) (dc : DC K) (truth : Z -> RK),
+  dc_explicit_ok dc ->
+  forall (w : world) (ev : event),
+  Inv kdf l1seed truth (w_cache w) -> Forall (pend_conf kdf l1seed truth) (w_pending w) -> Forall pend_pos (w_pending w) ->
+  ev_adm l1seed truth ev ->
+  Forall pend_pos (w_pending (step kdf l1seed nokey dc w ev)) /\
+  exists new, w_out (step kdf l1seed nokey dc w ev) = w_out w ++ new /\ Forall (good_outcome kdf l1seed truth) new.
+Proof. exact (@step_out). Qed.
+Print Assumptions C10_step_outcomes.
+
+Theorem C10_transparent : forall (K RK : Type) (kdf : KDF K) (l1seed : SEED K RK) (nokey : K) (dc : DC K) (truth : Z -> RK),
+  dc_explicit_ok dc -> dc_conforming_ok kdf l1seed dc truth ->
+  forall evs : list event, Forall (ev_adm l1seed truth) evs ->
+  Forall (good_outcome kdf l1seed truth) (w_out (run_events kdf l1seed nokey dc evs)).
+Proof. exact (@all_outcomes_good). Qed.
+Print Assumptions C10_transparent.
+
+(* a request the cache can serve: no RPC, nothing left pending, exactly the chain key of (rk, sd, l0, l1, l2) *)
+Theorem C10_unprotect_served_step : forall (K RK : Type) (kdf : KDF K) (l1seed : SEED K RK) (nokey : K) (dc : DC K) (truth : Z -> RK)
+    (w : world) (rk sd l0 l1 l2 : Z),
+  Inv kdf l1seed truth (w_cache w) -> served (w_cache w) rk sd l0 l1 l2 -> 0 <= l1 <= 31 -> 0 <= l2 <= 31 ->
+  exists c' : cache,
+    step kdf l1seed nokey dc w (Start (CUnprotect sd rk l0 l1 l2)) =
+    {| w_cache := c'; w_pending := w_pending w;
+       w_out := w_out w ++ [{| o_key := Ok (key_at kdf l1seed truth rk sd l0 l1 l2); o_pos := (l0, l1, l2); o_pub := false; o_rpcs := 0 |}] |}.
+Proof. exact (@start_unprotect_served). Qed.
+Print Assumptions C10_unprotect_served_step.
+
+Theorem C10_protect_served_step : forall (K RK : Type) (kdf : KDF K) (l1seed : SEED K RK) (nokey : K) (dc : DC K) (truth : Z -> RK)
+    (w : world) (rk sd l0 l1 l2 : Z),
+  Inv kdf l1seed truth (w_cache w) -> served (w_cache w) rk sd l0 l1 l2 -> 0 <= l1 <= 31 -> 0 <= l2 <= 31 ->
+  exists c' : cache,
+    step kdf l1seed nokey dc w (Start (CProtect sd (Some rk) l0 l1 l2)) =
+    {| w_cache := c'; w_pending := w_pending w;
+       w_out := w_out w ++ [{| o_key := Ok (key_at kdf l1seed truth rk sd l0 l1 l2); o_pos := (l0, l1, l2); o_pub := false; o_rpcs := 0 |}] |}.
+Proof. exact (@start_protect_served). Qed.
+Print Assumptions C10_protect_served_step.
+
+(* the completion of an unprotect RPC, whenever it is scheduled: the chain key of the requested position; the position is served from then on *)
+Theorem C10_unprotect_rpc_step : forall (K RK : Type) (kdf : KDF K) (l1seed : SEED K RK) (nokey : K) (dc : DC K) (truth : Z -> RK),
+  dc_explicit_ok dc -> dc_conforming_ok kdf l1seed dc truth ->
+  forall (w : world) (i : nat) (rk sd l0 l1 l2 : Z),
+  nth_error (w_pending w) i = Some (PUnprotect sd l0 l1 l2 (dc sd (Some rk) l0 l1 l2)) ->
+  0 <= l0 -> 0 <= l1 <= 31 -> 0 <= l2 <= 31 -> c_pub (dc sd (Some rk) l0 l1 l2) = false ->
+  exists c' : cache,
+    step kdf l1seed nokey dc w (Finish i) =
+    {| w_cache := c'; w_pending := remove_nth i (w_pending w);
+       w_out := w_out w ++ [{| o_key := Ok (key_at kdf l1seed truth rk sd l0 l1 l2); o_pos := (l0, l1, l2); o_pub := false; o_rpcs := 1 |}] |}
+    /\ served c' rk sd l0 l1 l2.
+Proof. exact (@finish_unprotect_rpc). Qed.
+Print Assumptions C10_unprotect_rpc_step.
+
+(* the synchronous API (get, RPC, store, use in one atomic step) *)
+Theorem C10_unprotect_sync : forall (K RK : Type) (kdf : KDF K) (l1seed : SEED K RK) (nokey : K) (dc : DC K) (truth : Z -> RK),
+  dc_explicit_ok dc -> dc_conforming_ok kdf l1seed dc truth ->
+  forall (c : cache) (sd rk l0 l1 l2 : Z),
+  Inv kdf l1seed truth c -> 0 <= l0 -> 0 <= l1 <= 31 -> 0 <= l2 <= 31 ->
+  let o := fst (unprotect kdf l1seed nokey dc c sd rk l0 l1 l2) in
+  Inv kdf l1seed truth (snd (unprotect kdf l1seed nokey dc c sd rk l0 l1 l2)) /\
+  o_pos o = (l0, l1, l2) /\ (o_pub o = false -> o_key o = Ok (key_at kdf l1seed truth rk sd l0 l1 l2)) /\
+  (served c rk sd l0 l1 l2 -> o_pub o = false /\ o_rpcs o = 0).
+Proof. exact (@unprotect_transparent). Qed.
+Print Assumptions C10_unprotect_sync.
+
+Theorem C10_protect_sync : forall (K RK : Type) (kdf : KDF K) (l1seed : SEED K RK) (nokey : K) (dc : DC K) (truth : Z -> RK),
+  dc_conforming_ok kdf l1seed dc truth ->
+  forall (c : cache) (sd : Z) (rko : option Z) (l0 l1 l2 : Z),
+  Inv kdf l1seed truth c -> 0 <= l1 <= 31 -> 0 <= l2 <= 31 ->
+  let o := fst (protect kdf l1seed nokey dc c sd rko l0 l1 l2) in
+  Inv kdf l1seed truth (snd (protect kdf l1seed nokey dc c sd rko l0 l1 l2)) /\
+  good_outcome kdf l1seed truth o /\
+  (forall rk : Z, rko = Some rk -> served c rk sd l0 l1 l2 ->
+     o = {| o_key := Ok (key_at kdf l1seed truth rk sd l0 l1 l2); o_pos := (l0, l1, l2); o_pub := false; o_rpcs := 0 |}).
+Proof. exact (@protect_transparent). Qed.
+Print Assumptions C10_protect_sync.
+
+(* literally "the same as with a fresh cache", whenever both runs obtain private key material
+   (a cache can hold a private envelope / root key where the DC would now answer with a public key only) *)
+Theorem C10_same_as_fresh : forall (K RK : Type) (kdf : KDF K) (l1seed : SEED K RK) (nokey : K) (dc : DC K) (truth : Z -> RK),
+  dc_explicit_ok dc -> dc_conforming_ok kdf l1seed dc truth ->
+  forall (c : cache) (sd rk l0 l1 l2 : Z),
+  Inv kdf l1seed truth c -> 0 <= l0 -> 0 <= l1 <= 31 -> 0 <= l2 <= 31 ->
+  let o := fst (unprotect kdf l1seed nokey dc c sd rk l0 l1 l2) in
+  let o0 := fst (unprotect kdf l1seed nokey dc empty_cache sd rk l0 l1 l2) in
+  o_pub o = false -> o_pub o0 = false -> o_key o = o_key o0 /\ o_pos o = o_pos o0.
+Proof. exact (@unprotect_same_as_fresh). Qed.
+Print Assumptions C10_same_as_fresh.
+
+(* the sync call is the async one whose RPC completes at once *)
+Theorem C10_sync_is_async_unprotect : forall (K RK : Type) (kdf : KDF K) (l1seed : SEED K RK) (nokey : K) (dc : DC K) (w : world) (sd rk l0 l1 l2 : Z),
+  w_pending w = [] ->
+  step kdf l1seed nokey dc (step kdf l1seed nokey dc w (Start (CUnprotect sd rk l0 l1 l2))) (Finish 0) =
+  {| w_cache := snd (unprotect kdf l1seed nokey dc (w_cache w) sd rk l0 l1 l2); w_pending := [];
+     w_out := w_out w ++ [fst (unprotect kdf l1seed nokey dc (w_cache w) sd rk l0 l1 l2)] |}.
+Proof. exact (@sync_unprotect_as_events). Qed.
+Print Assumptions C10_sync_is_async_unprotect.
+
+Theorem C10_sync_is_async_protect : forall (K RK : Type) (kdf : KDF K) (l1seed : SEED K RK) (nokey : K) (dc : DC K) (w : world) (sd : Z) (rko : option Z) (l0 l1 l2 : Z),
+  w_pending w = [] ->
+  step kdf l1seed nokey dc (step kdf l1seed nokey dc w (Start (CProtect sd rko l0 l1 l2))) (Finish 0) =
+  {| w_cache := snd (protect kdf l1seed nokey dc (w_cache w) sd rko l0 l1 l2); w_pending := [];
+     w_out := w_out w ++ [fst (protect kdf l1seed nokey dc (w_cache w) sd rko l0 l1 l2)] |}.
+Proof. exact (@sync_protect_as_events). Qed.
+Print Assumptions C10_sync_is_async_protect.
+
+(* ---- 3. monotone: grows c c' = for every triple the cached position (c_l1, c_l2) never decreases
+   lexicographically (pos_le), and loaded root keys stay loaded ---- *)
+Theorem C10_monotone_step : forall (K RK : Type) (kdf : KDF K) (l1seed : SEED K RK) (nokey : K) (dc : DC K) (truth : Z -> RK),
+  dc_conforming_ok kdf l1seed dc truth ->
+  forall (w : world) (ev : event), WInv kdf l1seed truth w -> ev_true l1seed truth ev ->
+  grows (w_cache w) (w_cache (step kdf l1seed nokey dc w ev)).
+Proof. exact (@step_grows). Qed.
+Print Assumptions C10_monotone_step.
+
+Theorem C10_monotone : forall (K RK : Type) (kdf : KDF K) (l1seed : SEED K RK) (nokey : K) (dc : DC K) (truth : Z -> RK),
+  dc_conforming_ok kdf l1seed dc truth ->
+  forall evs1 evs2 : list event, Forall (ev_true l1seed truth) (evs1 ++ evs2) ->
+  grows (w_cache (run_events kdf l1seed nokey dc evs1)) (w_cache (run_events kdf l1seed nokey dc (evs1 ++ evs2))).
+Proof. exact (@monotone). Qed.
+Print Assumptions C10_monotone.
+
+(* ---- 4. no repeat RPC: served c rk sd l0 l1 l2 = a cached envelope of (rk, sd, l0) covers (l1, l2), or the root key rk is loaded ---- *)
+Theorem C10_load_serves : forall (K RK : Type) (c : cache (K := K) (RK := RK)) (rk : Z) (d : RK) (sd l0 l1 l2 : Z),
+  served (load_key c rk d) rk sd l0 l1 l2.
+Proof. exact (@served_load). Qed.
+Print Assumptions C10_load_serves.
+
+Theorem C10_store_serves : forall (K RK : Type) (c : cache (K := K) (RK := RK)) (sd : Z) (e : cenv),
+  served (store_key c sd e) (c_rk e) sd (c_l0 e) (c_l1 e) (c_l2 e).
+Proof. exact (@served_store). Qed.
+Print Assumptions C10_store_serves.
+
+Theorem C10_no_repeat_rpc : forall (K RK : Type) (kdf : KDF K) (l1seed : SEED K RK) (nokey : K) (dc : DC K) (truth : Z -> RK),
+  dc_conforming_ok kdf l1seed dc truth ->
+  forall (evs1 evs2 : list event) (rk sd l0 l1 l2 l1' l2' : Z),
+  Forall (ev_true l1seed truth) (evs1 ++ evs2) ->
+  served (w_cache (run_events kdf l1seed nokey dc evs1)) rk sd l0 l1 l2 ->
+  l1' < l1 \/ l1' = l1 /\ l2' <= l2 ->
+  let w := run_events kdf l1seed nokey dc (evs1 ++ evs2) in
+  served (w_cache w) rk sd l0 l1' l2' /\
+  w_pending (step kdf l1seed nokey dc w (Start (CUnprotect sd rk l0 l1' l2'))) = w_pending w /\
+  w_pending (step kdf l1seed nokey dc w (Start (CProtect sd (Some rk) l0 l1' l2'))) = w_pending w /\
+  o_rpcs (fst (unprotect kdf l1seed nokey dc (w_cache w) sd rk l0 l1' l2')) = 0 /\
+  o_rpcs (fst (protect kdf l1seed nokey dc (w_cache w) sd (Some rk) l0 l1' l2')) = 0.
+Proof. exact (@no_repeat_rpc). Qed.
+Print Assumptions C10_no_repeat_rpc.
+
+(* ---- the hypotheses are satisfiable: the reference DC (for every key type and KDF), a toy instance, a concrete history ---- *)
+Example C10_ref_dc_explicit : forall (K RK : Type) (kdf : KDF K) (l1seed : SEED K RK) (nokey : K) (truth : Z -> RK)
+    (dflt n0 n1 n2 : Z) (authorised : Z -> bool),
+  dc_explicit_ok (ref_dc kdf l1seed nokey truth dflt n0 n1 n2 authorised).
+Proof. exact (@ref_dc_explicit). Qed.
+Example C10_ref_dc_conforming : forall (K RK : Type) (kdf : KDF K) (l1seed : SEED K RK) (nokey : K) (truth : Z -> RK)
+    (dflt n0 n1 n2 : Z) (authorised : Z -> bool),
+  0 <= n1 <= 31 -> 0 <= n2 <= 31 -> dc_conforming_ok kdf l1seed (ref_dc kdf l1seed nokey truth dflt n0 n1 n2 authorised) truth.
+Proof. exact (@ref_dc_conforming). Qed.
+Example C10_true_root_key_agrees : forall (K RK : Type) (l1seed : SEED K RK) (truth : Z -> RK) (rk : Z), agrees l1seed truth rk (truth rk).
+Proof. exact (@agrees_truth). Qed.
+Example C10_toy_history_admissible : Forall (ev_adm Toy.tl1seed Toy.ttruth) Toy.history.
+Proof. exact Toy.history_adm. Qed.
+(* two concurrent unprotects completing in reverse order, a covered request, a root key load, a request beyond the
+   cached envelope, a protect naming the root key (all without RPC), a protect through the DC *)
+Example C10_toy_history_outcomes :
+  map (fun o => (o_key o, o_pos o, o_rpcs o)) (w_out (Toy.trun Toy.history)) =
+  [(Ok (Toy.tkey 1 0 361 3 2), (361, 3, 2), 1); (Ok (Toy.tkey 1 0 361 3 4), (361, 3, 4), 1);
+   (Ok (Toy.tkey 1 0 361 2 9), (361, 2, 9), 0); (Ok (Toy.tkey 1 0 361 5 0), (361, 5, 0), 0);
+   (Ok (Toy.tkey 1 0 361 7 5), (361, 7, 5), 0); (Ok (Toy.tkey 1 0 361 7 5), (361, 7, 5), 1)].
+Proof. exact Toy.history_outcomes. Qed.
+Example C10_toy_protection_envelope_not_conforming :
+  ~ conf Toy.tkdf Toy.tl1seed Toy.ttruth 0 (prot_env Toy.tnokey 1 361 3 4 false (Toy.tkey 1 0 361 3 4)).
+Proof. exact Toy.prot_env_not_conforming. Qed.
+(* why C10_same_as_fresh asks both runs to be private: with the root key loaded the cache serves a caller the DC refuses *)
+Example C10_fresh_differs_when_dc_refuses :
+  o_key (fst (unprotect Toy.tkdf Toy.tl1seed Toy.tnokey Toy.tdc_refuse (load_key empty_cache 1 (Toy.ttruth 1)) 0 1 361 3 4)) = Ok (Toy.tkey 1 0 361 3 4) /\
+  o_key (fst (unprotect Toy.tkdf Toy.tl1seed Toy.tnokey Toy.tdc_refuse empty_cache 0 1 361 3 4)) = Raise ValueError.
+Proof. exact Toy.fresh_differs_when_dc_refuses. Qed.
+(* the hypothesis on loads matters, with or without a cache *)
+Example C10_wrong_root_key_wrong_key :
+  o_key (fst (unprotect Toy.tkdf Toy.tl1seed Toy.tnokey Toy.tdc (load_key empty_cache 1 777) 0 1 361 3 4)) <> Ok (Toy.tkey 1 0 361 3 4).
+Proof. exact Toy.wrong_root_key. Qed.
+(* the "DC always sends the L2 key" clause matters: a conforming reply without it makes protect use b"" as key material *)
+Example C10_l2_key_assumption_needed :
+  let o := fst (protect Toy.tkdf Toy.tl1seed Toy.tnokey ToyD13.dc13 empty_cache 0 None 361 7 31) in
+  o_pub o = false /\ o_pos o = (361, 7, 31) /\ o_key o = Ok Toy.tnokey /\ Toy.tnokey <> Toy.tkey 1 0 361 7 31.
+Proof. exact ToyD13.l2_key_assumption_needed. Qed.
